@@ -619,6 +619,10 @@ class CallMixin:
                         v = V(v.t.inner, v.t.val(v.z))
                 elif v.t is TNone and not isinstance(ft, TOpt):
                     v = self.pkt_default_value(owner, fn, default, ft)
+                elif isinstance(ft, TOpt) and isinstance(ft.inner, TAny) and v.t in (TBool, TInt, TStr, TBytes):
+                    # scapy: any2i() converts a value of another Python type; what matters to the contracts of an
+                    # opaque-valued field is that the stored internal value is present (any2i maps only None to None)
+                    v = V(ft, ft.some(fresh(ft.inner, 'conv_' + fn).z))
             else:
                 v = self.pkt_default_value(owner, fn, default, ft)
             self.write_heap(ref, ('pkt:' + ci.qualname, fn), ft, v)
